@@ -3,6 +3,7 @@ mod c01;
 mod c01probes;
 mod c02mut;
 mod c03;
+mod divrem;
 mod mini;
 mod c05corelib;
 mod c06;
